@@ -200,7 +200,7 @@ class Contract:
     setup: Callable[[Any], None] | None = None  # hook to install extra models on the engine
     canary: bool = False  # deliberately false contract: must FAIL
     max_paths: int = 4000
-    timeout_s: float = 20.0
+    timeout_s: float = 60.0
     notes: str = ""
     min_obligations: int = 1
     bind: str = "auto"  # how the target is called: 'auto' resolves attribute on class / module
